@@ -105,6 +105,9 @@ func example[V any](g *Generator[V], t *T) (V, int, error) {
 
 	for i := 1; ; i++ {
 		r, err := recoverValue(g, t)
+		if verifOn {
+			verifEmit("example.try", "i", i, "err", verifErr(err))
+		}
 		if err == nil {
 			return r, i, nil
 		} else if i == exampleMaxTries {
